@@ -38,9 +38,10 @@ if [ "$mode" = confirm ]; then
   [ -z "$pkg" ] && pkg=$(grep -m1 '^package ' "$src/demo_${v}_test.go" | awk '{print $2}')
   cp "$src/demo_${v}_test.go" "$wt/$pkg/zz_demo_${v}_test.go"
   names=$(grep -oE '^func (Test[A-Za-z0-9_]+)' "$wt/$pkg/zz_demo_${v}_test.go" | awk '{print $2}' | paste -sd'|')
-  (cd "$wt" && go test -count=1 -run "^($names)\$" ./$pkg > /tmp/vm/$id$v.demo_with.log 2>&1) && echo "demo WITH change: PASS (unexpected)" || echo "demo WITH change: FAIL (expected)"
+  race=""; head -5 "$wt/$pkg/zz_demo_${v}_test.go" | grep -q 'needs: -race' && race="-race"
+  (cd "$wt" && go test $race -count=1 -run "^($names)\$" ./$pkg > /tmp/vm/$id$v.demo_with.log 2>&1) && echo "demo WITH change: PASS (unexpected)" || echo "demo WITH change: FAIL (expected)"
   git apply -R /tmp/vm/$id$v.patch.diff
-  (cd "$wt" && go test -count=1 -run "^($names)\$" ./$pkg > /tmp/vm/$id$v.demo_without.log 2>&1) && echo "demo WITHOUT change: PASS (expected)" || { echo "demo WITHOUT change: FAIL (unexpected)"; tail -5 /tmp/vm/$id$v.demo_without.log; }
+  (cd "$wt" && go test $race -count=1 -run "^($names)\$" ./$pkg > /tmp/vm/$id$v.demo_without.log 2>&1) && echo "demo WITHOUT change: PASS (expected)" || { echo "demo WITHOUT change: FAIL (unexpected)"; tail -5 /tmp/vm/$id$v.demo_without.log; }
   rm -f "$wt/$pkg/zz_demo_${v}_test.go"
   cd /; git -C /repo worktree remove --force "$wt"
   exit 0
